@@ -211,6 +211,37 @@ impl Checker for C14 {
                 }
             }
         }
+        // the call that produced the handle (create_file / open_file of f) absorbs a storage fault and
+        // reports success: the caller writes, flushes; the flushed content must be found under the name
+        {
+            if let Some(Op::CreateFile { path, keep: Some(0), .. } | Op::OpenFile { path, keep: Some(0), .. }) = ops.last() {
+                let n = ops.len();
+                if path == "f" && n <= 4 && ex.calls_last <= 400 && matches!(ex.outs.last(), Some(Ok(_))) {
+                    let mut ops4 = ops.to_vec();
+                    ops4.push(Op::WriteAll { h: 0, len: 513 });
+                    ops4.push(Op::Flush { h: 0 });
+                    for k in 1..=ex.calls_last {
+                        let plan = Plan { fault: Some((k, 0x00FE_0000 + k as u32)), fault_op: Some(n - 1), ..self.plan() };
+                        let fx = sess::run(cfg, &ops4, &plan);
+                        if fx.panic.is_some() || fx.fired_early.map_or(true, |f| f.in_drop) {
+                            continue;
+                        }
+                        if !matches!(fx.outs.get(n - 1), Some(Ok(_))) || !matches!(fx.outs.get(n), Some(Ok(Out::Progress { err: None, .. }))) || !matches!(fx.outs.get(n + 1), Some(Ok(_))) {
+                            continue;
+                        }
+                        let Some(fnode) = fx.model.nodes.values().find(|x| x.given == "f") else { continue };
+                        self.ctr.crash_images.fetch_add(1, Ordering::Relaxed);
+                        let want4 = fnode.data.clone();
+                        let r = check_image(cfg, image_from(cfg, &fx.log, &|_| true), &want4, "open-ok-despite-storage-fault-then-written-and-flushed");
+                        *self.ctr.classes.lock().unwrap().entry(format!("open-ok-despite-storage-fault:{}", if r.is_some() { "LOST" } else { "intact" })).or_default() += 1;
+                        if let Some((sig, msg)) = r {
+                            v.push((sig, format!("{msg} [device call {k}/{} of {:?} failed once, the call still reported success; written, flushed]", ex.calls_last, ops[n - 1])));
+                            break;
+                        }
+                    }
+                }
+            }
+        }
         // a truncate of f that failed because of one storage fault; the caller carries on: writes, flushes.
         // The file as found in the final image (independent decoder) must have a sound chain whose clusters are all
         // marked used, and the library must read the same bytes after a remount.
@@ -255,7 +286,8 @@ impl Checker for C14 {
         let Some(nid) = nid else { return v };
         let Some(fnode) = ex.model.nodes.get(&nid) else { return v };
         let renamed = fnode.given == "r";
-        let names: Vec<&str> = if renamed { vec!["r", "f"] } else { vec!["f"] };
+        let fpath = ex.model.path_of(nid);
+        let names: Vec<&str> = if renamed { vec!["r", "f"] } else { vec![fpath.trim_start_matches('/')] };
         let want = fnode.data.clone();
         self.ctr.durable_nodes.fetch_add(1, Ordering::Relaxed);
         let log = &ex.log;
@@ -320,6 +352,19 @@ impl Checker for C14 {
                         }
                     }
                 }
+            }
+        }
+        // one storage fault in the LATER operation (an operation that is not on the flushed file):
+        // whatever that operation returns, the flushed file must be intact in the image it leaves behind
+        if p < n - 1 && ex.calls_last <= 400 && !matches!(ops[n - 1], Op::Remount) {
+            for k in 1..=ex.calls_last {
+                let plan = Plan { fault: Some((k, 0x00FF_0000 + k as u32)), ..self.plan() };
+                let fx = sess::run(cfg, ops, &plan);
+                if fx.panic.is_some() || fx.fired.is_none() {
+                    continue;
+                }
+                let res = match fx.outs.last() { Some(Ok(_)) => "Ok", Some(Err(_)) => "Err", None => "none" };
+                run("later-op-under-storage-fault", image_from(cfg, &fx.log, &|_| true), &mut v, format!("device call {k}/{} of the later operation {:?} failed once, it returned {res}", ex.calls_last, ops[n - 1]));
             }
         }
         // a flush that failed because of a storage fault, retried: once the retry returns Ok the file must be durable
@@ -436,6 +481,42 @@ pub fn specs(tier: &str) -> Vec<ExpSpec> {
         let mut al = alphabet(512);
         al.push(Op::CreateFile { base: r, path: "a-name-that-needs-four-slots".into(), keep: None });
         v.push(ExpSpec::new(c, al, 2).with_prefix(prefix));
+    }
+    {
+        // the flushed file lives in a subdirectory; later operations include removing that directory (refused: not empty)
+        let mut c = vol::tiny_with(FatType::Fat12, 12, 16);
+        c.name = format!("{}-subdir", c.name);
+        let r = DirRef::Root;
+        let prefix = vec![
+            Op::CreateDir { base: r, path: "d".into(), keep: None },
+            Op::CreateFile { base: r, path: "d/x".into(), keep: Some(0) },
+            Op::WriteAll { h: 0, len: 513 },
+            Op::DropFile { h: 0 },
+        ];
+        let mut al = alphabet(512);
+        al.push(Op::Remove { base: r, path: "d".into() });
+        v.push(ExpSpec::new(c, al, 2).with_prefix(prefix));
+    }
+    // access dates on, advancing clock: a read between the write and the flush changes the cached entry (access date)
+    // without changing the content; the pending size / first-cluster update must still reach the storage
+    for ft in [FatType::Fat12, FatType::Fat32] {
+        let mut c = vol::tiny_with(ft, 12, 16);
+        c.name = format!("{}-atime", c.name);
+        c.atime = true;
+        c.ticking = true;
+        let r = DirRef::Root;
+        let al = vec![
+            Op::CreateFile { base: r, path: "f".into(), keep: Some(0) },
+            Op::WriteAll { h: 0, len: 513 },
+            Op::Seek { h: 0, pos: harness::sess::SeekSpec::Start(0) },
+            Op::Read { h: 0, len: 1 },
+            Op::Flush { h: 0 },
+            Op::DropFile { h: 0 },
+            Op::OpenFile { base: r, path: "f".into(), keep: Some(0) },
+            Op::Truncate { h: 0 },
+            Op::Remount,
+        ];
+        v.push(ExpSpec::new(c, al, if th { 6 } else { 5 }));
     }
     let _ = new_dev;
     v
